@@ -883,6 +883,8 @@ class LayoutEval:
         for st in cls.body:
             if isinstance(st, ast.Assign) and isinstance(st.targets[0], ast.Name):
                 classattrs[st.targets[0].id] = st.value
+            elif isinstance(st, ast.AnnAssign) and isinstance(st.target, ast.Name) and st.value is not None:
+                classattrs[st.target.id] = st.value        # annotated class attribute (`bases: ClassVar[...] = {...}`)
         selfobj = SelfObj(classattrs, mod)
         found = self.find_method(mod, cls, "__init__")
         if found is None:
